@@ -9,7 +9,7 @@ import common
 import gen_grid
 
 COQ_FILES = ["Grid/QVec.v", "Grid/IntLin.v", "Grid/GridSem.v", "Grid/GridRef.v", "Grid/GridFreq.v", "Grid/GridOps2.v",
-             "Grid/GridOpsSpec.v", "Grid/GridOpsSpec2.v", "Grid/GridOpsSpec3.v"]
+             "Grid/GridOpsSpec.v", "Grid/GridOpsSpec2.v", "Grid/GridOpsSpec3.v", "Grid/GridOpsSpec4.v"]
 
 
 def parse_fail(line):
